@@ -176,6 +176,38 @@ func regStepND(state, input, output interface{}) []interface{} {
 				out = append(out, regState{n.Present, n.Val, keep})
 			}
 		}
+		// A removal (Invalidate, invalidating Compute, eviction) cancels the in-flight loads of its key at the start of
+		// its table computation and takes effect when that computation ends. A load that registers in between is not
+		// cancelled and installs its value afterwards, which "the removal, then the load" explains sequentially. A load
+		// whose registration interval overlaps the removal in real time may therefore survive it.
+		if n.Tokens == "" && !n.Present && (in.Kind == "invalidate" || in.Kind == "evict" || (in.Kind == "compute" && in.Cop == "invalidate")) {
+			keep := ""
+			for _, t := range in.Exempt {
+				if hasTok(st.Tokens, t) {
+					keep = addTok(keep, t)
+				}
+			}
+			if keep != "" {
+				out = append(out, regState{false, 0, keep})
+			}
+		}
+	}
+	return out
+}
+
+// exemptRemovals fills Exempt of every removal with the tokens of the loads whose registration overlaps it in real time.
+func exemptRemovals(ops []HOp) []HOp {
+	out := append([]HOp(nil), ops...)
+	for i := range out {
+		w := &out[i]
+		if !(w.Kind == "invalidate" || w.Kind == "evict" || (w.Kind == "compute" && w.Cop == "invalidate")) {
+			continue
+		}
+		for _, b := range ops {
+			if b.Kind == "begin" && b.Key == w.Key && b.Call <= w.Ret && w.Call <= b.Ret {
+				w.Exempt = append(w.Exempt, b.Token)
+			}
+		}
 	}
 	return out
 }
@@ -227,6 +259,7 @@ func RelaxWriteWindow(ops []HOp) []HOp {
 // CheckHistory decides per-key linearizability of a recorded history.
 // result: "ok", "illegal" or "unknown" (time budget hit: inconclusive).
 func CheckHistory(ops []HOp, timeout time.Duration) (result string, detail string) {
+	ops = exemptRemovals(ops)
 	h := make([]porcupine.Operation, 0, len(ops))
 	for _, o := range ops {
 		h = append(h, porcupine.Operation{ClientId: o.Client, Input: o, Call: o.Call, Return: o.Ret})
